@@ -14,6 +14,12 @@ Both node formats: `checkTop` is parametric in the decoder — `decBinRaw` (code
 `Json.decJson` (the canonical shape `encoding/json` writes for a node; what else `encoding/json`
 would accept — white space, other member orders, letter case — is outside the model and outside
 what the `badroots` family feeds it).
+With a `NodeCache` in front of the store (`loadMastC`: a hit returns the cached object, nothing is
+decoded): `C19_cold_cache` and `C19_cache_of_this_configuration(_json)` — a cold cache, or a cache
+filled by readers of the loader's own configuration, changes no outcome, so everything above
+carries over; `C19_cache_of_another_configuration_is_accepted_in_the_model` — the recorded known
+finding as a kernel-checked witness: an entry left by a differently configured reader is accepted
+where the cache-free load is rejected.
 -/
 namespace Mast.Loader
 
@@ -135,8 +141,85 @@ theorem C19_rejects_bad_json_top (fmt : String) (hf : knownFormat fmt = some Fmt
   | err why => exact ⟨why, by simp [hc]⟩
   | panic why => exact absurd hc (checkTop_no_panic _ kk layer height desc bytes why)
 
+/-! ## with a node cache in front of the store -/
+
+
+theorem C19_cold_cache (fmt kk layerOf h desc link top) :
+    loadMastC fmt kk layerOf h desc link none top = loadMast fmt kk (layerOf kk) h desc link top := by
+  unfold loadMastC loadMast
+  cases knownFormat fmt <;> rfl
+
+/-- a cache entry made under THIS configuration answers as the bytes do -/
+theorem checkCached_of_cacheEntry (dec kk layerOf height desc bytes c)
+    (hc : cacheEntry dec kk desc bytes = some c) :
+    checkCached layerOf height desc c = checkTop dec kk (layerOf kk) height desc bytes := by
+  unfold cacheEntry at hc
+  unfold checkTop
+  cases hraw : dec bytes with
+  | none => simp [hraw] at hc
+  | some raw =>
+    simp only [hraw] at hc ⊢
+    cases hkeys : raw.keys.mapM (fun b => b.bind (parseKey kk)) with
+    | none => simp [hkeys] at hc
+    | some keys =>
+      simp only [hkeys] at hc ⊢
+      by_cases hv : badVals raw = true
+      · rw [if_pos hv] at hc; cases hc
+      · rw [if_neg hv] at hc ⊢
+        by_cases hcnt : keys.length ≠ raw.vals.length ∨
+            (if raw.links.length = 0 then keys.length + 1 else raw.links.length) ≠ keys.length + 1
+        · rw [if_pos hcnt] at hc; cases hc
+        · rw [if_neg hcnt] at hc ⊢
+          by_cases hasc : ¬ ascending desc keys = true
+          · rw [if_pos hasc] at hc; cases hc
+          · rw [if_neg hasc] at hc ⊢
+            injection hc with hc
+            subst hc
+            unfold checkCached
+            simp only []
+            rw [if_neg hcnt, if_neg hasc]
+
+
+/-- **a cache filled under the loader's own configuration changes nothing**: whenever the object
+    under the root's link was put into the cache by a reader with this decoder, key kind and
+    order, `LoadMast` through the cache answers exactly as the cache-free `LoadMast` — so every
+    theorem above holds for it -/
+theorem C19_cache_of_this_configuration (kk layerOf height desc bytes c)
+    (hc : cacheEntry Codec.decBinRaw kk desc bytes = some c) :
+    loadMastC "v1.1.5binary" kk layerOf height desc true (some c) (some bytes) =
+      loadMast "v1.1.5binary" kk (layerOf kk) height desc true (some bytes) := by
+  have hk : knownFormat "v1.1.5binary" = some Fmt.bin := by decide
+  simp only [loadMastC, loadMast, hk]
+  exact checkCached_of_cacheEntry _ kk layerOf height desc bytes c hc
+
+theorem C19_cache_of_this_configuration_json (fmt : String) (hf : knownFormat fmt = some Fmt.json)
+    (kk layerOf height desc bytes c) (hc : cacheEntry Json.decJson kk desc bytes = some c) :
+    loadMastC fmt kk layerOf height desc true (some c) (some bytes) =
+      loadMast fmt kk (layerOf kk) height desc true (some bytes) := by
+  simp only [loadMastC, loadMast, hf]
+  exact checkCached_of_cacheEntry _ kk layerOf height desc bytes c hc
+
+/-- the stored bytes of a node with the two string keys "aaaaf", "aaaaj" (binary format) -/
+def strTop : Bytes := [2, 7, 34, 97, 97, 97, 97, 102, 34, 7, 34, 97, 97, 97, 97, 106, 34, 2, 1, 49, 1, 50, 0]
+
+/-- **the known finding, in the model** (negation witness for the cache of ANOTHER configuration):
+    a reader configured for string keys has loaded `strTop` and left it in the cache; a loader
+    configured for uint64 keys rejects the same root without the cache ("key": the bodies do not
+    unmarshal) and accepts it through the cache — the cached object is never decoded and the
+    default order and layer function are evaluated on its own key type.  Recorded in
+    known_findings.txt; the `badroots` family replays it on the Go code on every run. -/
+theorem C19_cache_of_another_configuration_is_accepted_in_the_model :
+    ∃ c, cacheEntry Codec.decBinRaw .str false strTop = some c ∧
+      loadMast "v1.1.5binary" .u64 (fun _ => 0) 0 false true (some strTop) = .err "key" ∧
+      loadMastC "v1.1.5binary" .u64 (fun _ _ => 0) 0 false true (some c) (some strTop) = .ok := by
+  refine ⟨{ kk := .str, keys := [5, 9], nvals := 2, nlinks := 3 }, by decide, by decide, by decide⟩
+
 end Mast.Loader
 #print axioms Mast.Loader.C19_rejects_bad_json_top
+#print axioms Mast.Loader.C19_cold_cache
+#print axioms Mast.Loader.C19_cache_of_this_configuration
+#print axioms Mast.Loader.C19_cache_of_this_configuration_json
+#print axioms Mast.Loader.C19_cache_of_another_configuration_is_accepted_in_the_model
 #print axioms Mast.Loader.C19_unknown_format
 #print axioms Mast.Loader.C19_missing_top
 #print axioms Mast.Loader.C19_ok_implies_good
